@@ -811,7 +811,7 @@ func (w *World) stringCallees(P string, f *Facts) {
 					return
 				}
 				ex, isEx := view.res(stripConvAll(ret.Results[0])).(*ssa.Extract)
-				if !isEx || ex.Tuple != ssa.Value(cutCall) {
+				if !isEx || ex.Tuple != ssa.Value(cutCall) || !view.feasible(ret.Block()) {
 					return
 				}
 				okPart = ex.Index == wantPart
@@ -833,7 +833,7 @@ func (w *World) stringCallees(P string, f *Facts) {
 			okSlice, okGuard := false, false
 			view.all(func(in ssa.Instruction) {
 				sl, isSl := in.(*ssa.Slice)
-				if !isSl || argIdx(sl.X) != 0 {
+				if !isSl || argIdx(sl.X) != 0 || !view.feasible(sl.Block()) {
 					return
 				}
 				for _, a := range view.guards(sl.Block()) {
